@@ -199,6 +199,21 @@ def show(n, depth=0):
     return "%s(%s)" % (k, ", ".join(show(c) for c in cs))
 
 
+def meth(n):
+    """(method short name, object expr) of a member call, resolved or template-dependent; else (None, None)."""
+    if not isinstance(n, dict):
+        return None, None
+    if n.get("k") == "MCall":
+        if n.get("m"):
+            return n["m"], n.get("obj")
+        c = n.get("callee")
+        if isinstance(c, dict) and c.get("k") in ("DMem", "UMem", "Mem"):
+            return c["n"], c.get("b")
+    if n.get("k") == "Call" and isinstance(n.get("callee"), dict) and n["callee"].get("k") in ("DMem", "UMem", "Mem"):
+        return n["callee"]["n"], n["callee"].get("b")
+    return None, None
+
+
 def is_call_to(n, suffix):
     return isinstance(n, dict) and n.get("k") in ("Call", "MCall", "OpCall") and (n.get("fn") or "").endswith(suffix)
 
